@@ -13,7 +13,7 @@ pub fn digest(d: &[u8]) -> u64 {
 pub fn run(ctx: &Ctx) -> Report {
     let mut rep = Report::new("total");
     let es = entries();
-    let nkeys = ctx.budget(150, 20_000, 2);
+    let nkeys = ctx.budget(600, 20_000, 2);
     let mut xlog: std::collections::BTreeMap<String, J> = Default::default();
     for e in es.iter().filter(|e| ctx.wants(e)) {
         if !(e.primary || e.route == "new_with_eff_key_len" || e.route.starts_with("new_with_tweak") || e.route == "tweak+block_u64" || e.route == "raw") {
@@ -46,8 +46,10 @@ pub fn run(ctx: &Ctx) -> Report {
                 let shape = if n == 1 { ALL_SHAPES[(i as usize + j as usize) % 3] } else { [Shape::Blocks, Shape::BlocksInout, Shape::BackendPar][(i as usize) % 3] };
                 for encrypt in [true, false] {
                     let mut out = data.clone();
+                    let separate = shape.needs_input() || (i + j) % 2 == 1;
                     let r = catch_unwind(AssertUnwindSafe(|| {
-                        if shape.needs_input() {
+                        if separate {
+                            out.iter_mut().for_each(|b| *b = 0x3C);
                             inst.run(encrypt, shape, Some(&data), &mut out)
                         } else {
                             inst.run(encrypt, shape, None, &mut out)
